@@ -426,7 +426,8 @@ class C03(Check):
         elif desc[0] == 'cli':
             import json
             from mc.cli import run_cli
-            for kseq in [('procs',), ('kexts', 'kexts'), ('images',), ('dyld', 'kexts', 'procs', 'images'), ()]:
+            for kseq in [('procs',), ('kexts', 'kexts'), ('images',), ('dyld', 'kexts', 'procs', 'images'), (),
+                         ('logs', 'procs', 'images', 'kexts'), ('procs', 'logs'), ('kexts', 'logs', 'images', 'logs')]:      # dumps that also hold log records
                 blob, threads, recs, ks, cpu = make(**dict(DEFAULT, kseq=kseq))
                 m = expected_meta(ks)
                 nk = list(ks).count('kexts')
